@@ -135,6 +135,66 @@ func (c *Ctx) errIs(err, target IfaceV, depth int) *Term {
 	return c.tb.ff
 }
 
+// errAs models errors.As: the first error in err's chain whose dynamic type is assignable to the variable
+// behind target is stored there.
+func (c *Ctx) errAs(err IfaceV, target IfaceV, depth int) bool {
+	if err.t == nil {
+		return false
+	}
+	if depth > 32 {
+		c.unsupported("errors.As chain too deep")
+	}
+	pt, ok := unalias(target.t).(*types.Pointer)
+	if !ok {
+		c.unsupported("errors.As target is not a pointer")
+	}
+	want := pt.Elem()
+	match := false
+	if it, isIface := under(want).(*types.Interface); isIface {
+		match = types.Implements(err.t, it)
+	} else {
+		match = types.Identical(err.t, want)
+	}
+	if _, engineErr := err.v.(*ErrV); match && !engineErr {
+		if _, isIface := under(want).(*types.Interface); isIface {
+			c.store(target.v.(PtrV), err)
+		} else {
+			c.store(target.v.(PtrV), err.v)
+		}
+		return true
+	}
+	if ev, ok := err.v.(*ErrV); ok {
+		for _, p := range ev.parents {
+			if c.errAs(p, target, depth+1) {
+				return true
+			}
+		}
+		return false
+	}
+	ms := c.shared.prog.MethodSets.MethodSet(err.t)
+	for i := 0; i < ms.Len(); i++ {
+		sel := ms.At(i)
+		if sel.Obj().Name() == "Unwrap" {
+			sig := sel.Type().(*types.Signature)
+			if sig.Params().Len() == 0 && sig.Results().Len() == 1 {
+				fn := c.shared.prog.MethodValue(sel)
+				r := c.callFn(fn, []Value{err.v}, nil)
+				switch u := r.(type) {
+				case IfaceV:
+					return c.errAs(u, target, depth+1)
+				case SliceV:
+					for _, e := range c.sliceElems(u) {
+						if c.errAs(e.(IfaceV), target, depth+1) {
+							return true
+						}
+					}
+				}
+			}
+		}
+	}
+	return false
+}
+
 // ---------- locks ----------
 
 type lockState struct {
@@ -350,6 +410,10 @@ func init() {
 	reg("github.com/synnaxlabs/x/errors.Is github.com/synnaxlabs/x/errors.CheapIs errors.Is github.com/cockroachdb/errors.Is",
 		func(c *Ctx, fn *ssa.Function, a []Value) Value {
 			return c.errIs(a[0].(IfaceV), a[1].(IfaceV), 0)
+		})
+	reg("github.com/synnaxlabs/x/errors.As errors.As github.com/cockroachdb/errors.As",
+		func(c *Ctx, fn *ssa.Function, a []Value) Value {
+			return c.tb.Bool(c.errAs(a[0].(IfaceV), a[1].(IfaceV), 0))
 		})
 	reg("github.com/synnaxlabs/x/errors.Combine github.com/cockroachdb/errors.CombineErrors", func(c *Ctx, fn *ssa.Function, a []Value) Value {
 		e1, e2 := a[0].(IfaceV), a[1].(IfaceV)
